@@ -32,6 +32,7 @@ type runSpec struct {
 	Par      int                 `json:"par"`
 	Seed     int64               `json:"seed"`
 	Chain    bool                `json:"chain"` // files import each other in a chain (more scheduling variety)
+	DP       string              `json:"dp"`    // this task's file is served as an overriding google/protobuf/descriptor.proto and not requested
 }
 
 type result struct {
@@ -100,6 +101,15 @@ func render(spec *runSpec, names []string, i int) string {
 	return sb.String()
 }
 
+func indexOf(l []string, x string) int {
+	for i, y := range l {
+		if y == x {
+			return i
+		}
+	}
+	return -1
+}
+
 func runOne(spec *runSpec) result {
 	res := result{ID: spec.ID}
 	names := make([]string, 0, len(spec.Items))
@@ -109,8 +119,21 @@ func runOne(spec *runSpec) result {
 	sort.Strings(names)
 	texts := map[string]string{"unused.proto": "syntax = \"proto3\";\npackage unused;\nmessage Unused {}\n"}
 	failing := map[string]bool{}
-	for i, t := range names {
-		texts[t+".proto"] = render(spec, names, i)
+	const dpPath = "google/protobuf/descriptor.proto"
+	var reqNames []string
+	for _, t := range names {
+		if t != spec.DP {
+			reqNames = append(reqNames, t)
+		}
+	}
+	for _, t := range names {
+		if t == spec.DP {
+			// a custom descriptor.proto with this task's defects; nobody imports it explicitly
+			txt := render(&runSpec{Items: spec.Items}, []string{t}, 0)
+			texts[dpPath] = strings.Replace(txt, "package p"+t+";", "package google.protobuf;", 1)
+			continue
+		}
+		texts[t+".proto"] = render(spec, reqNames, indexOf(reqNames, t))
 		for _, it := range spec.Items[t] {
 			if it == "N" {
 				failing[t+".proto"] = true
@@ -170,7 +193,7 @@ func runOne(spec *runSpec) result {
 			nerr++ // deliberately unsynchronised state would race; the contract says we are never concurrent
 			n := nerr
 			jitter()
-			time.Sleep(30 * time.Microsecond)
+			time.Sleep(250 * time.Microsecond)
 			ab := spec.AbortAt > 0 && n == spec.AbortAt
 			if ab {
 				atomic.StoreInt32(&aborted, 1)
@@ -187,15 +210,15 @@ func runOne(spec *runSpec) result {
 			emit(map[string]any{"ev": "WarnEnter", "file": e.GetPosition().Filename})
 			res.NWarn++
 			jitter()
-			time.Sleep(30 * time.Microsecond)
+			time.Sleep(250 * time.Microsecond)
 			emit(map[string]any{"ev": "WarnExit"})
 			atomic.AddInt32(&inflight, -1)
 		})
 
 	emit(map[string]any{"ev": "Config", "id": spec.ID, "abortAt": spec.AbortAt})
 	comp := protocompile.Compiler{Resolver: resolver, MaxParallelism: spec.Par, Reporter: rep}
-	req := make([]string, len(names))
-	for i, t := range names {
+	req := make([]string, len(reqNames))
+	for i, t := range reqNames {
 		req[i] = t + ".proto"
 	}
 	type outT struct{ err error }
